@@ -10,7 +10,7 @@
    reaching the receiver operand (method table lookup = prog.LookupMethod); type assertions filter by tag; constraints
    of a function are generated only once it is reachable (genFunc on demand).
    NOT modelled: the HVN/HU pre-solver optimisation (hvn.go, opt.go), the difference-propagation worklist of solve.go
-   (a naive saturating solver is used instead: both compute the least solution), reflection (reflect.go), the intrinsics
+   (a saturating chaotic-iteration solver over finite label sets is used instead: both compute the least solution), reflection (reflect.go), the intrinsics
    table, context-sensitive contours of small functions (the translator clones such callees per static call site),
    tuples/multiple results, struct values in registers, append/copy. *)
 From Coq Require Import List NArith PArith Bool FMapPositive.
